@@ -160,23 +160,43 @@ def clone_user_dir(src, dest):
     return dest
 
 
+LIBDIR = {}     # harness executable -> directory holding its private copy of librime.so
+
+
 def build_harness(flavour):
-    """harness executable for the given librime flavour (built under a lock, replaced
-    atomically: other runs may be executing the previous one)"""
+    """harness executable for the given librime flavour plus a private copy of the
+    librime.so it was linked against (the shared build directory is relinked in place
+    by any check that sees a new /repo commit - a run must not load a half-written
+    library).  Built/copied while holding the build directory's lock, replaced atomically."""
     import hashlib
     b = vlib.librime_build(flavour)
-    exe = os.path.join(vlib.WORK, "bin", "udbl-%s-%s" % (flavour, hashlib.sha256(b.encode()).hexdigest()[:8]))
     src = os.path.join(HARNESS, "udbl.cc")
-    stamp = exe + ".stamp"
-    key = "%s:%d:%d" % (b, os.stat(src).st_mtime_ns, os.stat(os.path.join(b, "lib", "librime.so")).st_mtime_ns)
-    with vlib.Lock(exe + ".lock"):
-        if os.path.exists(exe) and os.path.exists(stamp) and open(stamp).read() == key:
-            return exe
-        tmp = exe + ".tmp%d" % os.getpid()
-        vlib.cxx_build(tmp, [src], flags="-I%s/src" % b,
-                       libs="-L%s/lib -lrime -lglog -Wl,-rpath,%s/lib" % (b, b), san=(flavour == "asan"))
-        os.replace(tmp, exe)
-        open(stamp, "w").write(key)
+    with vlib.Lock(os.path.join(b, ".verif.lock")):
+        so = os.path.realpath(os.path.join(b, "lib", "librime.so"))
+        st = os.stat(so)
+        key = hashlib.sha256(("%s:%d:%d:%d" % (b, os.stat(src).st_mtime_ns, st.st_mtime_ns, st.st_size)).encode()).hexdigest()[:12]
+        d = os.path.join(vlib.WORK, "udbl", "%s-%s" % (flavour, key))
+        exe = os.path.join(d, "udbl")
+        if not os.path.exists(os.path.join(d, ".ok")):
+            tmp = d + ".tmp%d" % os.getpid()
+            shutil.rmtree(tmp, ignore_errors=True)
+            os.makedirs(os.path.join(tmp, "lib"))
+            shutil.copy2(so, os.path.join(tmp, "lib", "librime.so.1"))
+            os.symlink("librime.so.1", os.path.join(tmp, "lib", "librime.so"))
+            vlib.cxx_build(os.path.join(tmp, "udbl"), [src], flags="-I%s/src" % b,
+                           libs="-L%s/lib -lrime -lglog" % tmp, san=(flavour == "asan"))
+            open(os.path.join(tmp, ".ok"), "w").write(key)
+            try:
+                os.rename(tmp, d)
+            except OSError:
+                shutil.rmtree(tmp, ignore_errors=True)      # another run got there first
+            # keep the three newest variants of this flavour
+            root = os.path.dirname(d)
+            old = sorted((x for x in os.listdir(root) if x.startswith(flavour + "-") and ".tmp" not in x),
+                         key=lambda x: os.stat(os.path.join(root, x)).st_mtime)
+            for x in old[:-3]:
+                shutil.rmtree(os.path.join(root, x), ignore_errors=True)
+    LIBDIR[exe] = os.path.join(d, "lib")
     return exe
 
 
@@ -202,6 +222,8 @@ def run_script(exe, template, user_dir, script_lines, log_path=None, crash_at=No
     e.pop("VERIF_DBLOG", None)
     e.pop("VERIF_CRASH_AT", None)
     e.update(env)
+    if exe in LIBDIR:
+        e["LD_LIBRARY_PATH"] = LIBDIR[exe] + (":" + e["LD_LIBRARY_PATH"] if e.get("LD_LIBRARY_PATH") else "")
     import subprocess
     try:
         p = subprocess.run([exe, "run", os.path.join(template, "shared"), user_dir, sp], env=e,
@@ -219,6 +241,8 @@ def run_dump(exe, template, user_dir, names, timeout=120):
     for k in ("VERIF_DBLOG", "VERIF_CRASH_AT", "LD_PRELOAD"):
         e.pop(k, None)
     e["ASAN_OPTIONS"] = "detect_leaks=0"
+    if exe in LIBDIR:
+        e["LD_LIBRARY_PATH"] = LIBDIR[exe] + (":" + e["LD_LIBRARY_PATH"] if e.get("LD_LIBRARY_PATH") else "")
     try:
         p = subprocess.run([exe, "dump", os.path.join(template, "shared"), user_dir] + list(names), env=e,
                            stdout=subprocess.PIPE, stderr=subprocess.PIPE, timeout=timeout, text=True, errors="replace")
